@@ -129,12 +129,13 @@ def run(chk, replay=None):
         for _ in range(6 if quick else 40):
             lines.append("(entry type %s)" % quote(mutate(rng, gen.ty_src(t))))
     # boundary shapes at every entry point: lists at / over their bound, arrays and tuples one element short / long, empty aggregates
-    for k in (1, 2, 3, 4):
+    for k in (0, 1, 2, 3, 4):
         b = 1 << k
         for n in sorted({0, 1, b - 1, b, b + 1}):
             els = ", ".join(str(i % 7) for i in range(n))
             lit = "list![%s]" % els
-            lines.append("(entry value (L (U 3) %d) %s)" % (k, quote(lit)))
+            if k > 0:   # a list type with bound 1 cannot be built through the API (only written as text, below)
+                lines.append("(entry value (L (U 3) %d) %s)" % (k, quote(lit)))
             lines.append("(entry program %s)" % quote("fn main() { let l: List<u8, %d> = %s; }" % (b, lit)))
             lines.append("(entry program %s)" % quote("fn main() { let w: u8 = witness::W; let l: List<u8, %d> = list![%s]; }" % (b, ", ".join(["w"] * n))))
             lines.append("(entry program %s)" % quote("fn f(e: u8, a: u8) -> u8 { a }\nfn main() { let s: u8 = fold::<f, %d>(%s, 0); }" % (b, lit)))
